@@ -144,7 +144,7 @@ def densify(subs, vals, shape):
 # ------------------------------------------------------------------------- engine
 READ_OPS = ["r_full", "r_subs", "r_lin", "r_region"]
 WRITE_OPS = ["w_full", "w_subs", "w_lin", "w_region"]
-BAD_OPS = ["bad_subs_count", "bad_subs_cols", "bad_lin_beyond", "bad_region_shape", "bad_sparse_neg_subs"]
+BAD_OPS = ["bad_subs_count", "bad_subs_cols", "bad_lin_beyond", "bad_region_shape", "bad_sparse_neg_subs", "bad_region_shape_grow"]
 
 
 ITYPES = {"i64": np.int64, "i32": np.int32, "i16": np.int16, "i8": np.int8, "u8": np.uint8, "u16": np.uint16, "u32": np.uint32, "u64": np.uint64, "intp": np.intp}
@@ -644,8 +644,9 @@ class EngineA:
             p = g.randint(2, 4)
             rows = set()
             grow = g.random() < 0.3  # subscripts beyond the extent: a rejected call must not have grown the tensor
+            extra = 1 if (g.random() < 0.3 and N < MAX_ORDER) else 0  # one subscript too many per row: the order would grow
             for _ in range(p):
-                rows.add(tuple(g.randrange(m.shape[d] + (1 if grow else 0)) for d in range(N)))
+                rows.add(tuple(g.randrange(m.shape[d] + (1 if grow else 0)) for d in range(N)) + tuple(g.randint(0, 1) for _ in range(extra)))
             rows = sorted(rows)
             if len(rows) < 2:
                 return None
@@ -683,6 +684,36 @@ class EngineA:
             return {
                 "op": kind,
                 "key": enc(key),
+                "rhs": {"kind": "tensor", "shape": bad, "vals_f": [self._next_val(counter) for _ in range(cnt)]},
+            }
+        if kind == "bad_region_shape_grow":
+            # a region that reaches beyond the present extent, and a right-hand side of another shape: the rejected
+            # call must not have grown the receiver
+            key = []
+            for d in range(N):
+                ext = m.shape[d]
+                r = g.random()
+                if r < 0.5 and ext < self._maxext:
+                    a = g.randrange(ext + 1)
+                    key.append(slice(a, g.randint(max(a + 2, ext + 1), max(a + 2, ext + 2)), None))
+                elif r < 0.8 and ext >= 2:
+                    a = g.randrange(ext - 1)
+                    key.append(slice(a, g.randint(a + 2, ext), None))
+                else:
+                    key.append(g.randrange(ext))
+            if not any(isinstance(k, slice) and k.stop > m.shape[d] for d, k in enumerate(key)):
+                return None
+            newshape = m.region_target_shape(key)
+            lists, kept = m.region_lists(key, newshape)
+            rshape = [len(lists[d]) for d in kept]
+            bad = list(rshape)
+            j = g.randrange(len(bad))
+            bad[j] = bad[j] + g.randint(1, 2)
+            cnt = int(np.prod(bad))
+            return {
+                "op": kind,
+                "key": enc(key),
+                "form": g.choice(["tensor", "ndarray", "sptensor"]),
                 "rhs": {"kind": "tensor", "shape": bad, "vals_f": [self._next_val(counter) for _ in range(cnt)]},
             }
         if kind == "bad_sparse_neg_subs":
@@ -1255,11 +1286,16 @@ class EngineA:
     def _op_bad_subs_count(self, w, step, i, res):
         m = w["m"]
         subs, vals = step["subs"], step["vals"]
-        if any(len(r) != m.order or any(not (0 <= r[d] <= m.shape[d]) for d in range(m.order)) for r in subs):
+        ncol = len(subs[0]) if subs else 0
+        if ncol not in (m.order, m.order + 1) or ncol > MAX_ORDER:
+            return "skip"
+        if any(len(r) != ncol or any(not (0 <= r[d] <= m.shape[d]) for d in range(m.order)) or any(not (0 <= k <= 1) for k in r[m.order :]) for r in subs):
             return "skip"
         if len(vals) == len(subs) or len(vals) < 2 or len(subs) < 2:
             return "skip"
         arr = np.array(subs, dtype=int)
+        if ncol > m.order:
+            res.bump("probe:malformed_request_that_would_grow_the_order")
 
         def do_d():
             w["D"][arr.copy()] = list(vals)
@@ -1313,6 +1349,44 @@ class EngineA:
             w["D"][tuple(key)] = ttb.tensor(np.asfortranarray(R.copy()))
 
         return self._bad(w, i, res, "bad_region_shape", [("D", do_d, f"D[region of shape {rshape}] = tensor of shape {bad}")])
+
+    def _op_bad_region_shape_grow(self, w, step, i, res):
+        m = w["m"]
+        key = dec(step["key"])
+        rhs = step["rhs"]
+        if len(key) != m.order:
+            return "skip"
+        for d, k in enumerate(key):
+            if isinstance(k, slice):
+                if k.step is not None or k.start is None or k.stop is None or not (0 <= k.start < k.stop <= self._maxext + 2) or k.start > m.shape[d]:
+                    return "skip"
+            elif not (isinstance(k, int) and 0 <= k < m.shape[d]):
+                return "skip"
+        if not any(isinstance(k, slice) and k.stop > m.shape[d] for d, k in enumerate(key)):
+            return "skip"
+        newshape = m.region_target_shape(key)
+        lists, kept = m.region_lists(key, newshape)
+        rshape = tuple(len(lists[d]) for d in kept)
+        bad = tuple(rhs["shape"])
+        if not kept or len(bad) != len(rshape) or bad == rshape or any(b < r for b, r in zip(bad, rshape)):
+            return "skip"
+        if all(b == r or b == 1 for b, r in zip(bad, rshape)):
+            return "skip"
+        R = self._rhs_array(rhs)
+        ttb = self.ttb
+        form = step.get("form", "tensor")
+        res.bump("probe:malformed_request_that_would_grow_the_receiver")
+        if form == "sptensor":
+            def do_s():
+                nzs = np.argwhere(R != 0)
+                w["S"][tuple(key)] = ttb.sptensor(nzs, R[tuple(nzs.T)].reshape(-1, 1), bad)
+
+            return self._bad(w, i, res, "bad_region_shape_grow", [("S", do_s, f"S[growing region {key} of shape {rshape}] = sptensor of shape {bad}")])
+
+        def do_d():
+            w["D"][tuple(key)] = ttb.tensor(np.asfortranarray(R.copy())) if form == "tensor" else np.asfortranarray(R.copy())
+
+        return self._bad(w, i, res, "bad_region_shape_grow", [("D", do_d, f"D[growing region {key} of shape {rshape}] = {form} of shape {bad}")])
 
     def _op_bad_sparse_neg_subs(self, w, step, i, res):
         m = w["m"]
